@@ -12,7 +12,11 @@ type (
 	RWMutex   = zzvsched.RWMutex
 	WaitGroup = zzvsched.WaitGroup
 	Once      = zzvsched.Once
+	Cond      = zzvsched.Cond
 	Map       = sync.Map
 	Locker    = sync.Locker
 	Pool      = sync.Pool
 )
+
+// NewCond replaces sync.NewCond.
+func NewCond(l Locker) *Cond { return zzvsched.NewCond(l) }
